@@ -557,15 +557,15 @@ func (h *csH) step1(a csAct) string {
 		if err := h.n.state.CheckTimeouts(); err == nil {
 			return "no request timed out"
 		}
-		// node.restart(): Run saves, resets the state and reconnects
-		h.n.blocks.Save(ctx)
-		h.n.state.Reset()
-		h.n.state.SetVersionReceived()
-		h.n.state.MarkConnected()
-		for len(h.n.outgoing.Channel) > 0 {
-			<-h.n.outgoing.Channel
+		h.reconnect()
+	case "Drop": // the connection is lost: same path (node.restart()) without a time-out
+		if h.inflPc != "idle" {
+			return "processor busy"
 		}
-		h.net, h.out, h.sendh, h.pann = nil, nil, false, 0
+		if !h.n.state.HandshakeComplete() {
+			return "no handshake yet"
+		}
+		h.reconnect()
 	case "ProcRestart":
 		if h.inflPc != "idle" {
 			return "processor busy"
@@ -580,6 +580,18 @@ func (h *csH) step1(a csAct) string {
 		h.t.Fatalf("unknown action %q", a.A)
 	}
 	return ""
+}
+
+// reconnect is node.restart(): Run saves, resets the state and reconnects; what was in flight is gone.
+func (h *csH) reconnect() {
+	h.n.blocks.Save(vCtx())
+	h.n.state.Reset()
+	h.n.state.SetVersionReceived()
+	h.n.state.MarkConnected()
+	for len(h.n.outgoing.Channel) > 0 {
+		<-h.n.outgoing.Channel
+	}
+	h.net, h.out, h.sendh, h.pann = nil, nil, false, 0
 }
 
 func (h *csH) release() {
